@@ -221,7 +221,7 @@ def run(ck):
     quick = ck.tier == "quick"
     if not quick:
         self_tests(ck)
-    share = need_ok(tlc(ck, "ShConc.quick.cfg", workers=4 if quick else 8), "share").vecs.get("VEC", [])
+    share = need_ok(tlc(ck, "ShConc.%s.cfg" % ck.tier, workers=4 if quick else 8), "share").vecs.get("VEC", [])
     jobs = need_ok(tlc(ck, "ShConc.jobs3.cfg", workers=4 if quick else 8), "jobs").vecs.get("VEC", [])
     vecs = []
     if quick:
@@ -252,7 +252,10 @@ def run(ck):
     for v, r in zip(vecs, res):
         judge(ck, v, r, stats)
     ck.cov["distinct_nontrivial"] = len(stats["nontrivial"])
-    ck.cov["exhaustive"] = not quick
+    # the one-job and the 2..3-job families are run completely in the thorough tier, the two-job sharing family
+    # (share2) is sampled by simulation, quick picks one schedule per one-job shape: not exhaustive as a whole
+    ck.cov["exhaustive"] = False
+    ck.notes["families_run_completely"] = [] if quick else ["share", "jobs"]
     ck.cov["rule"] = ("TLC BFS over ShConc: every shape (6 spawn kinds x 16 job operations x 16 main operations x during/after; "
                       "2..3 jobs of kinds &/>( ) x every wait order) and every interleaving of its events, one vector per terminal "
                       "state (quick: one seed-picked schedule per one-job shape, all two-job and 300 sampled three-job vectors; "
